@@ -1,7 +1,150 @@
 /-
-  C19 — property theorems (see DESIGN.md §5 C19).
+  C19 — `OrderDSCForBuild` together with the topological sort it calls: the loop always
+  terminates (the model's fuel is never exhausted); a returned order is a permutation of
+  the source names in which every source comes after each source that builds a binary it
+  needs; a dependency cycle yields an error, an acyclic graph an order; and which edges
+  the graph has.
+  Property theorems only; lemmas live in GoDebian/Lemmas/BuildOrder*.lean.
 -/
 import GoDebian.Model.BuildOrder
+import GoDebian.Lemmas.BuildOrder
 
 namespace GoDebian.Props.C19
+open GoDebian GoDebian.BuildOrder
+open GoDebian.Lemmas.BuildOrder.Sample
+
+/-- the fuel `nodes.length + 1` always suffices: every pass that does not end the loop
+    marks at least one new node -/
+theorem C19_total (srcs : List Src) (arch : Dep.Arch) : order srcs arch ≠ .error .fuel :=
+  Lemmas.BuildOrder.order_not_fuel srcs arch
+
+/-- the three outcomes that do occur: an order; a cycle error; and the nil dereference of
+    `GetPossibilities` on a hand-built possibility without architecture set.
+    (`a` wants `libz [armhf] | libb`, `unknown`, and `libc-x`; `b` wants `libc-x`;
+    `z` wants `liba`; `b` builds two binaries.) -/
+example :
+    let a : Src := ⟨B "a", [B "liba"], [[[Parm "libz", P "libb"], [P "unknown"]], [], [[P "libc-x"]]]⟩
+    let b : Src := ⟨B "b", [B "libb", B "libb-dev"], [[], [[P "libc-x"]], []]⟩
+    let c : Src := ⟨B "c", [B "libc-x"], [[], [], []]⟩
+    let z : Src := ⟨B "z", [B "libz"], [[[P "liba"]], [], []]⟩
+    order [a, b, c, z] amd64 = .ok [B "c", B "b", B "a", B "z"] ∧
+    order [a, b, { c with deps := [[[P "liba"]], [], []] }] amd64 = .error .err ∧
+    order [c, ⟨B "v", [], [[[Pnil "x"]], [], []]⟩] amd64 = .error .panic := by
+  decide +kernel
+
+/-- the result is a permutation of the source names (distinct names) -/
+theorem C19_perm (srcs : List Src) (arch : Dep.Arch) (out : List Bytes)
+    (hd : (srcs.map (·.source)).Nodup) (h : order srcs arch = .ok out) :
+    out.Perm (srcs.map (·.source)) :=
+  Lemmas.BuildOrder.order_perm hd h
+
+/-- the hypotheses hold on the four sources above; and without distinct names the
+    conclusion fails: two sources of the same name are one node, output once -/
+example :
+    let a : Src := ⟨B "a", [B "liba"], [[[Parm "libz", P "libb"], [P "unknown"]], [], [[P "libc-x"]]]⟩
+    let b : Src := ⟨B "b", [B "libb", B "libb-dev"], [[], [[P "libc-x"]], []]⟩
+    let c : Src := ⟨B "c", [B "libc-x"], [[], [], []]⟩
+    let z : Src := ⟨B "z", [B "libz"], [[[P "liba"]], [], []]⟩
+    ([a, b, c, z].map (·.source)).Nodup ∧
+    order [a, b, c, z] amd64 = .ok [B "c", B "b", B "a", B "z"] ∧
+    order [c, c] amd64 = .ok [B "c"] := by
+  decide +kernel
+
+/-- every source comes after each source that builds a binary it needs -/
+theorem C19_respects (srcs : List Src) (arch : Dep.Arch) (out : List Bytes)
+    (es : List (Bytes × Bytes)) (he : edges srcs arch = .ok es) (h : order srcs arch = .ok out) :
+    ∀ to from_, (to, from_) ∈ es → to ∈ out →
+      ∃ i j : Nat, out[i]? = some from_ ∧ out[j]? = some to ∧ i < j :=
+  fun to from_ hedge hto => Lemmas.BuildOrder.order_respects he h to from_ hedge hto
+
+/-- the edges of the four sources: `a` needs `b` and `c`, `b` needs `c`, `z` needs `a`
+    (`libz [armhf]` does not apply to amd64, `unknown` is built by no source) -/
+example :
+    let a : Src := ⟨B "a", [B "liba"], [[[Parm "libz", P "libb"], [P "unknown"]], [], [[P "libc-x"]]]⟩
+    let b : Src := ⟨B "b", [B "libb", B "libb-dev"], [[], [[P "libc-x"]], []]⟩
+    let c : Src := ⟨B "c", [B "libc-x"], [[], [], []]⟩
+    let z : Src := ⟨B "z", [B "libz"], [[[P "liba"]], [], []]⟩
+    edges [a, b, c, z] amd64 = .ok [(B "a", B "b"), (B "a", B "c"), (B "b", B "c"), (B "z", B "a")] ∧
+    order [a, b, c, z] amd64 = .ok [B "c", B "b", B "a", B "z"] := by
+  decide +kernel
+
+/-- hence a dependency cycle (including a self-dependency) yields an error, never an
+    order -/
+theorem C19_cycle_error (srcs : List Src) (arch : Dep.Arch) (es : List (Bytes × Bytes))
+    (he : edges srcs arch = .ok es) (cyc : List Bytes) (hne : cyc ≠ [])
+    (hc : ∀ i, i < cyc.length → (cyc[(i+1) % cyc.length]!, cyc[i]!) ∈ es)
+    (hin : ∀ n ∈ cyc, n ∈ nodeOrder srcs) :
+    ∀ out, order srcs arch ≠ .ok out :=
+  Lemmas.BuildOrder.order_cycle he cyc hne hc hin
+
+/-- a cycle of length three (`a` needs `b` needs `c` needs `a`) next to an unaffected
+    source -/
+example :
+    let a : Src := ⟨B "a", [B "liba"], [[[P "libb"]], [], []]⟩
+    let b : Src := ⟨B "b", [B "libb"], [[], [[P "libc-x"]], []]⟩
+    let c : Src := ⟨B "c", [B "libc-x"], [[], [], [[P "liba"]]]⟩
+    let d : Src := ⟨B "d", [B "libd"], [[], [], []]⟩
+    let es := [(B "a", B "b"), (B "b", B "c"), (B "c", B "a")]
+    let cyc := [B "c", B "b", B "a"]
+    edges [d, a, b, c] amd64 = .ok es ∧
+    (∀ i, i < cyc.length → (cyc[(i+1) % cyc.length]!, cyc[i]!) ∈ es) ∧
+    (∀ n ∈ cyc, n ∈ nodeOrder [d, a, b, c]) ∧
+    order [d, a, b, c] amd64 = .error .err := by
+  decide +kernel
+
+/-- a self-dependency (`s` needs a binary it builds itself) -/
+example :
+    let d : Src := ⟨B "d", [B "libd"], [[], [], []]⟩
+    let s : Src := ⟨B "s", [B "libs"], [[[P "libs"]], [], []]⟩
+    let es := [(B "s", B "s")]
+    let cyc := [B "s"]
+    edges [d, s] amd64 = .ok es ∧
+    (∀ i, i < cyc.length → (cyc[(i+1) % cyc.length]!, cyc[i]!) ∈ es) ∧
+    (∀ n ∈ cyc, n ∈ nodeOrder [d, s]) ∧
+    order [d, s] amd64 = .error .err := by
+  decide +kernel
+
+/-- and an acyclic graph is always ordered -/
+theorem C19_acyclic_ok (srcs : List Src) (arch : Dep.Arch) (es : List (Bytes × Bytes))
+    (he : edges srcs arch = .ok es)
+    (hac : ∃ rank : Bytes → Nat, ∀ to from_, (to, from_) ∈ es → rank from_ < rank to) :
+    ∃ out, order srcs arch = .ok out :=
+  hac.elim fun rank hrank => Lemmas.BuildOrder.order_acyclic he rank hrank
+
+/-- a rank function for the four sources: c ↦ 0, b ↦ 1, a ↦ 2, z ↦ 3 -/
+example :
+    let a : Src := ⟨B "a", [B "liba"], [[[Parm "libz", P "libb"], [P "unknown"]], [], [[P "libc-x"]]]⟩
+    let b : Src := ⟨B "b", [B "libb", B "libb-dev"], [[], [[P "libc-x"]], []]⟩
+    let c : Src := ⟨B "c", [B "libc-x"], [[], [], []]⟩
+    let z : Src := ⟨B "z", [B "libz"], [[[P "liba"]], [], []]⟩
+    ∃ es, edges [a, b, c, z] amd64 = .ok es ∧
+      ∃ rank : Bytes → Nat, ∀ to from_, (to, from_) ∈ es → rank from_ < rank to :=
+  let rank : Bytes → Nat := fun n => if n = B "c" then 0 else if n = B "b" then 1 else if n = B "a" then 2 else 3
+  ⟨[(B "a", B "b"), (B "a", B "c"), (B "b", B "c"), (B "z", B "a")], by decide +kernel, rank,
+    fun to from_ h =>
+      (by decide +kernel : ∀ p ∈ [(B "a", B "b"), (B "a", B "c"), (B "b", B "c"), (B "z", B "a")],
+        rank p.2 < rank p.1) (to, from_) h⟩
+
+/-- which edges there are: `to` has, in one of its three fields, a relation whose first
+    alternative applicable to the architecture is a binary of `from` -/
+theorem C19_edges_spec (srcs : List Src) (arch : Dep.Arch) (es : List (Bytes × Bytes))
+    (he : edges srcs arch = .ok es) (to from_ : Bytes) :
+    (to, from_) ∈ es ↔ ∃ s ∈ srcs, s.source = to ∧ ∃ ws, wanted s arch = .ok ws ∧
+      ∃ w ∈ ws, mapGet w (sourceMapping srcs) = some from_ :=
+  Lemmas.BuildOrder.edges_spec he to from_
+
+/-- the wanted names of `a` (first applicable alternative of each relation, the three
+    fields in order) and the binary → source map (a later source overrides an earlier one
+    that builds a binary of the same name) -/
+example :
+    let a : Src := ⟨B "a", [B "liba"], [[[Parm "libz", P "libb"], [P "unknown"]], [], [[P "libc-x"]]]⟩
+    let b : Src := ⟨B "b", [B "libb", B "libb-dev"], [[], [[P "libc-x"]], []]⟩
+    let c : Src := ⟨B "c", [B "libc-x"], [[], [], []]⟩
+    let b2 : Src := ⟨B "b2", [B "libb"], [[], [], []]⟩
+    wanted a amd64 = .ok [B "libb", B "unknown", B "libc-x"] ∧
+    sourceMapping [a, b, c] = [(B "liba", B "a"), (B "libb", B "b"), (B "libb-dev", B "b"), (B "libc-x", B "c")] ∧
+    edges [a, b, c] amd64 = .ok [(B "a", B "b"), (B "a", B "c"), (B "b", B "c")] ∧
+    edges [a, b, c, b2] amd64 = .ok [(B "a", B "b2"), (B "a", B "c"), (B "b", B "c")] := by
+  decide +kernel
+
 end GoDebian.Props.C19
